@@ -24,67 +24,67 @@ import (
 
 // Job is what the driver (check.py) hands to a worker process.
 type Job struct {
-	Property string `json:"property"`
-	Profile  string `json:"profile"`
-	Tier     string `json:"tier"`
-	Seed     uint64 `json:"seed"`
-	First    int    `json:"first"`  // first run index of this worker
-	Stride   int    `json:"stride"` // number of workers
-	MaxRuns  int    `json:"max_runs"`
+	Property string  `json:"property"`
+	Profile  string  `json:"profile"`
+	Tier     string  `json:"tier"`
+	Seed     uint64  `json:"seed"`
+	First    int     `json:"first"`  // first run index of this worker
+	Stride   int     `json:"stride"` // number of workers
+	MaxRuns  int     `json:"max_runs"`
 	BudgetS  float64 `json:"budget_s"`
-	Out      string `json:"out"`
-	Scratch  string `json:"scratch"`
+	Out      string  `json:"out"`
+	Scratch  string  `json:"scratch"`
 	// Replay: run exactly this tape once (fresh process), no exploration.
-	ReplayTape  []uint64 `json:"replay_tape,omitempty"`
-	ReplaySeed  uint64   `json:"replay_seed,omitempty"`
-	ReplayClass string   `json:"replay_class,omitempty"`
-	ShrinkBudget int     `json:"shrink_budget"`
-	TapeLimit    int     `json:"tape_limit"`
-	LogDump      bool    `json:"log_dump"`
+	ReplayTape   []uint64 `json:"replay_tape,omitempty"`
+	ReplaySeed   uint64   `json:"replay_seed,omitempty"`
+	ReplayClass  string   `json:"replay_class,omitempty"`
+	ShrinkBudget int      `json:"shrink_budget"`
+	TapeLimit    int      `json:"tape_limit"`
+	LogDump      bool     `json:"log_dump"`
 	// Known lists "class|signature" of recorded findings: they are reported but not shrunk.
 	Known []string `json:"known,omitempty"`
 	// ShrinkExternal: minimise ReplayTape for violation ReplayClass/ReplaySig, running every candidate in a fresh
 	// child process of this binary (for engines whose failing runs cannot be repeated inside one process).
-	ShrinkExternal bool   `json:"shrink_external,omitempty"`
-	ReplaySig      string `json:"replay_sig,omitempty"`
+	ShrinkExternal bool    `json:"shrink_external,omitempty"`
+	ReplaySig      string  `json:"replay_sig,omitempty"`
 	ShrinkWallS    float64 `json:"shrink_wall_s,omitempty"`
 }
 
 // Found is one violation with everything needed to replay it.
 type Found struct {
-	Violation  Violation         `json:"violation"`
-	RunIndex   int               `json:"run_index"`
-	RunSeed    uint64            `json:"run_seed"`
-	Tape       []uint64          `json:"tape"`
-	OrigLen    int               `json:"orig_tape_len"`
-	Minimised  bool              `json:"minimised"`
-	ShrinkRuns int               `json:"shrink_runs"`
-	LogHash    string            `json:"log_hash"`
-	LogTail    []string          `json:"log_tail"`
-	Knobs      map[string]int64  `json:"knobs"`
-	Counters   map[string]int64  `json:"counters"`
+	Violation  Violation        `json:"violation"`
+	RunIndex   int              `json:"run_index"`
+	RunSeed    uint64           `json:"run_seed"`
+	Tape       []uint64         `json:"tape"`
+	OrigLen    int              `json:"orig_tape_len"`
+	Minimised  bool             `json:"minimised"`
+	ShrinkRuns int              `json:"shrink_runs"`
+	LogHash    string           `json:"log_hash"`
+	LogTail    []string         `json:"log_tail"`
+	Knobs      map[string]int64 `json:"knobs"`
+	Counters   map[string]int64 `json:"counters"`
 }
 
 // Summary is what a worker writes when it is done.
 type Summary struct {
-	Property     string           `json:"property"`
-	Profile      string           `json:"profile"`
-	Runs         int              `json:"runs"`
-	Steps        int64            `json:"steps"`
-	SimSeconds   float64          `json:"sim_seconds"`
-	WallS        float64          `json:"wall_s"`
-	Counters     map[string]int64 `json:"counters"`
-	Fingerprints []uint64         `json:"fingerprints"`
-	Nontrivial   []uint64         `json:"nontrivial"`
-	States       []uint64         `json:"states"`
-	Undecided    int64            `json:"undecided"`
-	Found        []Found          `json:"found"`
-	Samples      [][]string       `json:"samples"`
-	HarnessError string           `json:"harness_error,omitempty"`
-	Tainted      bool             `json:"tainted"`
+	Property     string            `json:"property"`
+	Profile      string            `json:"profile"`
+	Runs         int               `json:"runs"`
+	Steps        int64             `json:"steps"`
+	SimSeconds   float64           `json:"sim_seconds"`
+	WallS        float64           `json:"wall_s"`
+	Counters     map[string]int64  `json:"counters"`
+	Fingerprints []uint64          `json:"fingerprints"`
+	Nontrivial   []uint64          `json:"nontrivial"`
+	States       []uint64          `json:"states"`
+	Undecided    int64             `json:"undecided"`
+	Found        []Found           `json:"found"`
+	Samples      [][]string        `json:"samples"`
+	HarnessError string            `json:"harness_error,omitempty"`
+	Tainted      bool              `json:"tainted"`
 	LogHashes    map[string]string `json:"log_hashes,omitempty"` // run index -> log hash (determinism self-test)
-	ReplayLog    []string         `json:"replay_log,omitempty"`
-	Notes        []string         `json:"notes,omitempty"`
+	ReplayLog    []string          `json:"replay_log,omitempty"`
+	Notes        []string          `json:"notes,omitempty"`
 	// NextIndex is the run index at which a fresh worker should continue after this one left early (tainted).
 	NextIndex int `json:"next_index,omitempty"`
 }
